@@ -179,9 +179,10 @@ structure LoadState where
 /-- cache.ReloadBCache with nobody else attached (a restarted daemon): the wait loop (10 × 1 s while the flag is
 set) changes nothing; then — whether or not the flag is still set: it can only be the leftover of a loader that died
 holding it — `reloadBCacheCore` takes the flag, loads `.BRD` and releases it, and `SortBCache` (which skips when the
-flag is set) finds it clear and rebuilds both orders. -/
-def reloadBCache (s : LoadState) (file : List Board) : LoadState :=
-  let core : LoadState := { busy := false, boards := file, sorted := false }   -- flag := 1; load; deferred flag := 0
+flag is set) finds it clear and rebuilds both orders.  A `.BRD` with more than MAX_BOARD records is cut to the first MAX_BOARD. -/
+def reloadBCache (maxBoard : Nat) (s : LoadState) (file : List Board) : LoadState :=
+  -- flag := 1; copy at most sizeof(BCache) bytes, BNumber := min(len, sizeof(BCache)) / record size; deferred flag := 0
+  let core : LoadState := { busy := false, boards := file.take maxBoard, sorted := false }
   if core.busy then core else { core with sorted := true }                     -- SortBCache
 
 /-! ### listings -/
